@@ -21,6 +21,7 @@ from world import C_BOOL, C_DICT, C_INT, C_LIST, C_NONE, C_OBJECT, C_STR, C_TUPL
 
 use_repo()
 
+_META = [0]
 LITS = [0, 1, 2, 3, "a", "b", "ab", 2.5, None]
 H_SEQ, H_COLL, H_MAP = 0, 1, 2
 
@@ -149,7 +150,10 @@ class Speller:
             self.glb[a[1]] = self.obj(self.names[a[1]])
             return a[1]
         if k == "annotated":
-            return typing.Annotated[self.obj(a[1]), "meta"]
+            # unique metadata: typing caches Annotated[X, m] by (X, m) and unions compare as *sets*, so
+            # Annotated[Union[A, B], m] would come back as an earlier Annotated[Union[B, A], m]
+            _META[0] += 1
+            return typing.Annotated[self.obj(a[1]), f"meta{_META[0]}"]
         if k in ("unionT", "pipe", "tup"):
             ms = [self.obj(m) for m in a[1]]
             if k == "tup":
